@@ -46,6 +46,12 @@ CHECKS.update({
          "gzip/bufio trusted; channel-operation granularity; lists longer than 3 records and names with leading/trailing blanks not generated.", "§5 C13"),
 })
 
+CHECKS.update({
+ "C20": ("stateless model checking of the streaming parser against consumer tasks under a controlled scheduler, for every truncation/corruption point (fault enumeration x all interleavings)",
+         "Documents with 0..2 (3 thorough) entries are fed to the real Parse intact, truncated at EVERY byte offset, with one byte replaced by '<' or deleted at every offset, and as truncated gzip streams; for each stream, the documented consumer (entries to closure, then errors) and a two-task concurrent consumer are run for channel capacities {0,1,100} and ALL interleavings of parser and consumers are executed with visited-state pruning. Oracle: an independent encoding/xml pass decides well-formedness and how many entries are complete before the damage; delivered entries, order, field contents, at-least-one error, both channels closed, no deadlock / leak / horizon overrun.",
+         "encoding/xml, gzip trusted; channel-operation granularity; a partial entry after the complete ones is tolerated.", "§5 C20"),
+})
+
 NOT_YET = {}
 
 props = [json.loads(l) for l in open('/verif/properties.jsonl')]
